@@ -183,6 +183,21 @@ theorem luma16_is_prediction_plus_residue (mbx mby lumaMode : Nat) (hm : lumaMod
           | _ => Vp8Pred.predict 12 ws 16 1 1 21 (mby != 0) (mbx != 0)).getD (Vp8IntraProof.at16 r c) 0 : Nat)) :=
   Vp8IntraProof.luma16_recon mbx mby lumaMode hm bmodes res ws hres hws r c hr hc
 
+
+/-- **the chroma planes likewise**: every sample of the 8x8 U (first block 16) and V (first block 20)
+    part of a macroblock is the predicted sample plus the residue of its 4x4 block, clamped, for
+    every workspace, chroma mode and residue (model `Vp8Intra.chromaRecon`, tied through hook 0765b56). -/
+theorem chroma_is_prediction_plus_residue (mbx mby chromaMode first : Nat) (hf : first ≤ 20) (res : Array Int) (ws : Array Nat)
+    (hres : res.size = 384) (hws : ws.size = 81) (r c : Nat) (hr : r < 8) (hc : c < 8) :
+    (Vp8Intra.chromaRecon mbx mby chromaMode first res ws).getD (Vp8IntraProof.at8 r c) 0 =
+      Vp8Intra.clampByte (res.getD (16 * (first + ((r / 4) * 2 + c / 4)) + 4 * (r % 4) + c % 4) 0 +
+        ((match chromaMode with
+          | 1 => Vp8Pred.predict 10 ws 8 1 1 9 true true
+          | 2 => Vp8Pred.predict 11 ws 8 1 1 9 true true
+          | 3 => Vp8Pred.predict 1 ws 8 1 1 9 true true
+          | _ => Vp8Pred.predict 12 ws 8 1 1 9 (mby != 0) (mbx != 0)).getD (Vp8IntraProof.at8 r c) 0 : Nat)) :=
+  Vp8IntraProof.chroma_recon mbx mby chromaMode first hf res ws hres hws r c hr hc
+
 /-! ### loop-filter kernels = RFC 6386 section 15 -/
 
 def seg (e : Edge) : RFC.LF.Seg := ⟨e.p3, e.p2, e.p1, e.p0, e.q0, e.q1, e.q2, e.q3⟩
